@@ -38,9 +38,9 @@ var c15Ops = []string{
 }
 
 func c15Run(r *engine.Run) int {
-	n, depth := 3, 4
+	n, depth := 3, 5
 	if r.Thorough() {
-		n, depth = 4, 5
+		n, depth = 4, 6
 	}
 	r.Rule = fmt.Sprintf("(a) every history of 1..%d statements by up to 3 writers (all kinds, write-time orders, writer assignments, 2 base states) x every byte-identical retry (statement i, later position, any writer, with/without refresh first): merged rows equal the history without the retry; (b) the out-of-time-order histories against the documented rule; (c) every sequence of length 1..%d over {%s} against a model of effective write time / deadline. Non-trivial: retry actually executed / sequence sets an attribute", n, depth, strings.Join(c15Ops, ", "))
 	r.Bounds["statements_max"] = n
@@ -62,7 +62,10 @@ func c15Run(r *engine.Run) int {
 	}
 	for a := range c15Ops {
 		for b := range c15Ops {
-			cases = append(cases, engine.J(c15Case{Kind: "conn", First: []int{a, b}, Depth: depth}))
+			cases = append(cases, engine.J(c15Case{Kind: "conn", First: []int{a, b}, Depth: 2}))
+			for c3 := range c15Ops {
+				cases = append(cases, engine.J(c15Case{Kind: "conn", First: []int{a, b, c3}, Depth: depth}))
+			}
 		}
 		cases = append(cases, engine.J(c15Case{Kind: "conn", First: []int{a}, Depth: 1}))
 	}
@@ -350,7 +353,9 @@ func c15Conn(res *engine.Result, ops []int) ([]string, bool) {
 			if !expired && err != nil {
 				res.Violate("insert-failed", "INSERT failed although no past deadline is in effect (deadline %v): %v [%s]", dl, err, where)
 			}
-			if inTx && !txTouched {
+			if inTx && !txTouched && err == nil {
+				// (an INSERT that fails under a past deadline fails in xBegin's clone already: SQLite does not
+				// count the table as part of the transaction, the next statement begins it again)
 				txTouched = true
 				txAuto = now
 			}
